@@ -91,7 +91,8 @@ class OperatorGraphTemplate(AbstractBaseTemplate):
         if operators:
             operators = _update_operators(self.operators, operators)
         else:
-            operators = self.operators
+            # the derived template gets its own variation dicts: changing it later (update_var) must not change the base
+            operators = {op: dict(variations) for op, variations in self.operators.items()}
 
         return self.__class__(name=name, path=path, operators=operators, description=description)
 
